@@ -307,7 +307,9 @@ func (x *Exec) execRange(st *State, s *ast.RangeStmt, label string) *State {
 			for i := int64(0); i < nlit.Int64() && cur != nil; i++ {
 				setVar(cur, keyV, IntLit(i))
 				if valV != nil {
-					setVar(cur, valV, x.loadTyped(cur, u.Elem(), Add(slBase(sl), IntLit(i))))
+					ev := x.loadTyped(cur, u.Elem(), Add(slBase(sl), IntLit(i)))
+					x.assumeElemInv(cur, xt, u.Elem(), ev)
+					setVar(cur, valV, ev)
 				}
 				lc.continues = nil
 				nb := len(cur.pc)
@@ -337,7 +339,9 @@ func (x *Exec) execRange(st *State, s *ast.RangeStmt, label string) *State {
 		body := st.clone()
 		body.pc = append(body.pc, Lt(idx, ln))
 		if valV != nil {
-			setVar(body, valV, x.loadTyped(body, u.Elem(), Add(slBase(sl), idx)))
+			ev := x.loadTyped(body, u.Elem(), Add(slBase(sl), idx))
+			x.assumeElemInv(body, xt, u.Elem(), ev)
+			setVar(body, valV, ev)
 		}
 		lc := &loopCtx{label: label}
 		x.loops = append(x.loops, lc)
